@@ -135,7 +135,9 @@ class C09Antenna(Machine):
     # ------------------------------------------------------------------
     def _window_spec(self, rng, kind=None):
         n = self.cfg["n"]
-        kind = kind or rng.pick(["base", "overlap", "nested", "disjoint", "far", "half"])
+        kind = kind or rng.pick(["base", "overlap", "nested", "disjoint", "far", "half", "long"])
+        if kind == "long":
+            return {"k0": rng.randint(-n, 0), "m": n * rng.pick([3, 12, 25]), "frac": 0}
         if kind == "base":
             return {"k0": 0, "m": n, "frac": 0}
         if kind == "overlap":
